@@ -259,18 +259,25 @@ Proof.
     assert (Hf' := Hf). unfold sd_frame in Hf'.
     destruct Hf' as (F1 & F2 & F3 & F4 & F5 & F6 & F7 & F8 & F9 & F10 & F11 & F12 & F13 & F14 & F15 & F16).
     unfold on_packet_sent, emit.
+    (* two nested tests since the repair of D13: last_sent moves, seq_nr is only raised *)
     split.
-    { destruct (seq_gt (fs_seq f) _); unfold sd_frame; vsimpl; repeat split; assumption. }
+    { destruct (seq_gt (fs_seq f) _); [destruct (seq_gt (wadd16 (fs_seq f) 1) _)|];
+        unfold sd_frame; vsimpl; repeat split; assumption. }
     split.
-    { destruct (seq_gt (fs_seq f) _); vsimpl; rewrite Ho; reflexivity. }
+    { destruct (seq_gt (fs_seq f) _); [destruct (seq_gt (wadd16 (fs_seq f) 1) _)|];
+        vsimpl; rewrite Ho; reflexivity. }
     split.
-    { destruct (seq_gt (fs_seq f) _); vsimpl; rewrite Hsg, F7; reflexivity. }
+    { destruct (seq_gt (fs_seq f) _); [destruct (seq_gt (wadd16 (fs_seq f) 1) _)|];
+        vsimpl; rewrite Hsg, F7; reflexivity. }
     split.
-    { rewrite <- Hls. destruct (seq_gt (fs_seq f) _); vsimpl; reflexivity. }
+    { rewrite <- Hls. destruct (seq_gt (fs_seq f) _); [destruct (seq_gt (wadd16 (fs_seq f) 1) _)|];
+        vsimpl; reflexivity. }
     split.
-    { destruct (seq_gt (fs_seq f) _); vsimpl; rewrite Htr, F7, F8; reflexivity. }
+    { destruct (seq_gt (fs_seq f) _); [destruct (seq_gt (wadd16 (fs_seq f) 1) _)|];
+        vsimpl; rewrite Htr, F7, F8; reflexivity. }
     split.
-    { destruct (seq_gt (fs_seq f) _); vsimpl; exact Htp. }
+    { destruct (seq_gt (fs_seq f) _); [destruct (seq_gt (wadd16 (fs_seq f) 1) _)|];
+        vsimpl; exact Htp. }
     split; [exact Hne|]. split; [exact Hoff|exact Hb2].
   - (* TPending *)
     unfold sd_unchanged. unfold sd_frame in *. vsimpl. tauto.
